@@ -1,0 +1,61 @@
+//! Read-only verification hooks (`--cfg daachorse_verif` only).
+
+use crate::charwise::CharwiseDoubleArrayAhoCorasick;
+use crate::utils::FromU32;
+use crate::verif::{RawAutomaton, RawOutput, RawState};
+
+impl<V> CharwiseDoubleArrayAhoCorasick<V>
+where
+    V: Copy,
+{
+    /// Copies all tables out.
+    #[must_use]
+    pub fn verif_raw(&self) -> RawAutomaton<V> {
+        RawAutomaton {
+            states: self
+                .states
+                .iter()
+                .map(|s| RawState {
+                    base: s.base().map_or(0, core::num::NonZeroU32::get),
+                    check: s.check(),
+                    fail: s.fail(),
+                    output_pos: s.output_pos().map_or(0, core::num::NonZeroU32::get),
+                })
+                .collect(),
+            outputs: self
+                .outputs
+                .iter()
+                .map(|o| RawOutput {
+                    value: o.value(),
+                    length: o.length(),
+                    parent: o.parent().map_or(0, core::num::NonZeroU32::get),
+                })
+                .collect(),
+            mapper_table: self.mapper.verif_table().to_vec(),
+            alphabet_size: self.mapper.alphabet_size(),
+            match_kind: u8::from(self.match_kind),
+            num_states: self.num_states,
+        }
+    }
+
+    /// Calls the crate's own `child_index_unchecked` for an in-range state and a mapped label.
+    #[must_use]
+    pub fn verif_child(&self, state: u32, mapped_label: u32) -> Option<u32> {
+        assert!(usize::from_u32(state) < self.states.len());
+        unsafe { self.child_index_unchecked(state, mapped_label) }
+    }
+
+    /// Calls the crate's own `next_state_id_unchecked` for an in-range state.
+    #[must_use]
+    pub fn verif_next_state(&self, state: u32, label: char) -> u32 {
+        assert!(usize::from_u32(state) < self.states.len());
+        unsafe { self.next_state_id_unchecked(state, label) }
+    }
+
+    /// Calls the crate's own `next_state_id_leftmost_unchecked` for an in-range state.
+    #[must_use]
+    pub fn verif_next_state_leftmost(&self, state: u32, label: char) -> u32 {
+        assert!(usize::from_u32(state) < self.states.len());
+        unsafe { self.next_state_id_leftmost_unchecked(state, label) }
+    }
+}
